@@ -240,6 +240,12 @@ example : (step { q := 101, d := 5, size := 2, consts := [3] } {} (.write [0, 1,
     (step { q := 101, d := 5, size := 2, consts := [3] }
       (step { q := 101, d := 5, size := 2, consts := [3] } {} (.write [0, 1])).1 (.write [0, 2, 0, 3])).1 := by simp [step, run, flush, mp, compress, encrypt, round, sbox, decodeBlocks, pad, decBlock, beToNat, encBE, init]
 
+/-- digest size (`C14 mimc regsize`): `Sum(b)` appends exactly `P.size` bytes = one field element, in every state; this is
+the number that `hash.Hash.Size()` of the registry id and `Size()` of the hasher have to report -/
+theorem C14_mimc_digest_size (P : Params) (s : Digest) (b : Bytes) :
+    ∃ v, (step P s (.sum b)).2 = .bytes v ∧ v.length = b.length + P.size :=
+  ⟨_, rfl, by simp [encBE_length]⟩
+
 end GV.MiMC
 
 /-! ## Part 2: Poseidon2 and the Merkle–Damgård wrapper -/
@@ -457,6 +463,43 @@ example : let M : MD := { bs := 2, f := fun s b => some (List.zipWith (· + ·) 
 example : (mdStep { bs := 2, f := fun s b => some (List.zipWith (· + ·) s b), valid := fun _ => true, iv := [0, 0] }
     [0, 0] (.write [1, 2, 3, 4, 5])).1 = [4, 11] := by
   simp [mdStep, chunks, absorb]
+
+/-- digest size (`C14 md regsize`): the digest of the empty message of a registered Merkle–Damgård hasher is its iv,
+`(t/2)·eb` bytes -/
+theorem C14_md_digest_size (C : CInst) :
+    (mdStep C.md C.md.iv (.sum [])).2 = .bytes C.md.iv ∧ C.md.iv.length = (C.inst.t / 2) * C.eb := by
+  constructor
+  · simp [mdStep]
+  · simp [CInst.md]
+
+/-! ### koalabear/vortex sponge `HashPoseidon2`: the documented function is a function of the ZERO-PADDED input -/
+
+/-- the padded input is a whole number of rate blocks -/
+theorem C14_vx_pad_length (x : List Nat) : (vxPad x).length % 16 = 0 := by
+  simp only [vxPad, List.length_append, List.length_replicate]; omega
+
+/-- padding a padded input adds nothing -/
+theorem C14_vx_pad_idem (x : List Nat) : vxPad (vxPad x) = vxPad x := by
+  have h : (16 - (vxPad x).length % 16) % 16 = 0 := by rw [C14_vx_pad_length]
+  have e : vxPad (vxPad x) = vxPad x ++ List.replicate ((16 - (vxPad x).length % 16) % 16) 0 := rfl
+  rw [e, h]; simp
+
+/-- "The input is zero-padded": an input and its zero-padding to the next multiple of the rate have the same digest -/
+theorem C14_vx_hash_zero_padded (C : CInst) (x : List Nat) : vxHash C (vxPad x) = vxHash C x := by
+  unfold vxHash; rw [C14_vx_pad_idem]
+
+/-- the same, spelled out for a final partial block: `k = 16 - len(x) % 16` explicit zeros change nothing -/
+theorem C14_vx_hash_append_zeros (C : CInst) (x : List Nat) (h : x.length % 16 ≠ 0) :
+    vxHash C (x ++ List.replicate (16 - x.length % 16) 0) = vxHash C x := by
+  have hk : (16 - x.length % 16) % 16 = 16 - x.length % 16 := by omega
+  have : x ++ List.replicate (16 - x.length % 16) 0 = vxPad x := by simp only [vxPad, hk]
+  rw [this, C14_vx_hash_zero_padded]
+
+/-- a whole number of blocks is not padded -/
+theorem C14_vx_pad_full (x : List Nat) (h : x.length % 16 = 0) : vxPad x = x := by
+  simp [vxPad, h]
+
+example : vxPad [1, 2, 3] = [1, 2, 3, 0, 0, 0, 0, 0, 0, 0, 0, 0, 0, 0, 0, 0] := by decide
 
 end GV.Poseidon2
 
